@@ -51,6 +51,10 @@ def model (textB jsonB : HHmmBounds) : List String → Option String
       | _, _ => none
     t.map fun t => "text " ++ hexOf t
   | "rt" :: _ => some "same"
+  | ["taskobj", f, t] =>
+    -- both dates are required: given or "" (no date) is accepted, null or left out is rejected
+    let given := fun (x : String) => x = "valid" ∨ x = "empty"
+    some (if given f ∧ given t then "ok" else "err")
   | _ => none
 
 /-- maximal digit runs of a text, as numbers -/
@@ -149,6 +153,9 @@ def spec : List String → List String → Option String
       some (Driver.verdict okv "the text names the value")
     | _ => some "bad formatting yields text"
   | "rt" :: _, impl => some (Driver.expect "same" impl)
+  | ["taskobj", f, t], impl =>
+    let given := fun (x : String) => x = "valid" ∨ x = "empty"
+    some (Driver.expect (if given f ∧ given t then "ok" else "err") impl)
   | _, _ => none
 
 end Uhppote.Driver.Text
